@@ -3,7 +3,7 @@ import ast
 
 from ..astx import (calls_in, dotted, norm, src, iter_nodes, assigned_targets, assigned_names,
                     const_value, is_const, parent_chain, aliases_of)
-from ..lib import (raises, call_arg, relation, truth, other, cmp_views, core, holds_region, conditions, eval_conditions, relation_tests, atom_key, expand_condition, mode_mismatch_conditions, is_bytes_mode_text_guard, cfg_nodes_with_call, node_calls, returns, stmt_assigns_attr, callee_last,
+from ..lib import (raises, call_arg, relation, truth, other, cmp_views, core, holds_region, conditions, path_tests, entails_empty, paths_entail_empty, eval_conditions, relation_tests, atom_key, expand_condition, mode_mismatch_conditions, is_bytes_mode_text_guard, cfg_nodes_with_call, node_calls, returns, stmt_assigns_attr, callee_last,
                    is_name, is_self_attr, node_roots, guard_region)
 from ..linear import ctext
 from ..loader import AnalysisError
@@ -74,7 +74,7 @@ def run(R):
         check_control(c, repo)
     with R.clause('D6', 'PAIR', floor=2, desc='socket: the temporary read timeout never leaks into sendall (restored on every exit of the read)') as c:
         from .c05 import check_socket_timeout
-        check_socket_timeout(c, repo, restore=True)
+        check_socket_timeout(c, repo, restore='leak')
     with R.clause('D5', 'CONST', floor=2, desc='text in bytes mode is UTF-8 encoded, bytes pass unchanged') as c:
         f = repo.func('spawnbase:SpawnBase._coerce_send_string')
         encs = [k for k in calls_in(f.node) if callee_last(k) == 'encode']
